@@ -24,3 +24,12 @@ package oc
 //@   requires g != nil
 //@   claims post
 //@   ensures result ==> g.Confederation.Config.Enabled
+
+// from C08 "the OPEN sent reflects the configuration": what a neighbour configures for graceful restart is looked up
+// under the key its configuration section has ("graceful-restart", the mapstructure tag of Neighbor.GracefulRestart)
+// when deciding which of its fields the peer group may fill in - looked up under any other key, every field counts as
+// unset and the peer group's value replaces it
+//@ props C08
+//@ func OverwriteNeighborConfigWithPeerGroup
+//@   claims at-call
+//@   at-call ^overwriteConfig(&c.GracefulRestart.Config requires arg2 == "neighbor.graceful-restart.config"
